@@ -40,3 +40,22 @@ add("C02", "proof",
 add("C01", "proof",
     "Round trip decomposed into proved layers over the model (bit packing, RLE encode/decode, Dremel stripe/assemble, thrift encode/decode, PLAIN, page payload) and an executable writer+reader model whose bytes and read results equal the implementation's exactly on structurally enumerated and boundary-valued records of five structs, partitions around page boundaries, page sizes and three codecs; the implementation's read-back is compared with the input. The whole-file composition theorem is not yet a single theorem (partial); the two aliasing clauses are runtime facts explored by the harness only (mutation after Add, scanned records re-checked after later reads).",
     PROOF_NOTE, "Lean 4 layer theorems + exact differential correspondence of writer and reader models", "DESIGN.md §6 C01")
+
+add("C08", "proof",
+    "Theorem readFull_indep: io.ReadFull over any fragmentation schedule (any grants >= 1, EOF with or without data) returns exactly the requested bytes or fails exactly when fewer are available; lemma no_single_read_sites over the call-site inventory regenerated from the source on every run (every source read is ReadFull/CopyN/binary.Read, a Seek or a pass-through); the reader model consumes the source only through readExactly. Tie: the generated reader over a fragmenting ReadSeeker (fixed chunk sizes 1..17, seeded random short reads, data+EOF) on valid files of five structs x three codecs must give the unfragmented result.",
+    PROOF_NOTE + " The thrift transport's reads are library code (trusted; exercised by the runs). Schedules returning (0, nil) are excluded.",
+    "Lean 4 proof of the read loop + regenerated call-site inventory + fragmenting-source correspondence", "DESIGN.md §6 C08")
+
+add("C09", "proof",
+    "Theorems: a sequence of I/O steps whose every error is checked or returned reports a failure of its k-th step for every k (and a dropped error is exactly what swallows one); lemmas over the inventories regenerated on every run: every sink write and every call that reaches the sink has its error checked/returned; failing_call identifies the API call containing write k. Tie: exhaustive over k — for every workload the sink fails at its k-th Write for every k; the API call predicted from the model's per-call write list must return an error, earlier calls complete with the model's write counts, nothing panics.",
+    PROOF_NOTE + " Inventories are syntactic (go/ast).",
+    "Lean 4 proof of error propagation over a regenerated call-site inventory + exhaustive fault enumeration", "DESIGN.md §6 C09")
+
+add("C10", "proof",
+    "Lemmas over the regenerated inventories: every source read/seek and every call that reaches the source has its error checked, returned or stored in the sticky reader error; with C09's propagation theorem a failure of any step of an API call is reported by that call; next_reports: a failing row-group load makes Next false with the error set. Tie: a fault-free traced run maps each Read/Seek call index to the API call it occurs in; the source then fails at call k for every k (thorough) / a dense sample (quick) and the outcome must be the predicted one: constructor error, or Next false + Error() after exactly the first j-1 correct rows; never a panic.",
+    PROOF_NOTE + " Inventories are syntactic (go/ast); the thrift runtime's error propagation is trusted (exercised).",
+    "Lean 4 lemmas over a regenerated call-site inventory + exhaustive fault enumeration against the implementation", "DESIGN.md §6 C10")
+
+add("C11", "proof",
+    "Theorem truncated_rejected_partial: for every file in which PAR1 occurs only at its two ends, every strict prefix is rejected by the reader model at open time (trailing magic is checked before the footer length is trusted); the full statement is false for any reader (a value may hold a complete trailer): that crafted input is a known finding. Tie: EVERY strict prefix of files of five structs x three codecs plus crafted files is opened and iterated by the generated reader; accept/reject per prefix length must equal the reader model's; the NoInnerMagic hypothesis is evaluated on every file.",
+    PROOF_NOTE, "Lean 4 theorem under an explicit decidable hypothesis + exhaustive prefix enumeration", "DESIGN.md §6 C11")
